@@ -336,11 +336,6 @@ impl PossibleCycles {
     }
 
     #[inline]
-    #[cfg(any(
-        feature = "pedantic-debug-assertions",
-        feature = "finalization",
-        all(test, feature = "std") // Unit tests
-    ))]
     pub(crate) fn iter(&self) -> Iter {
         self.into_iter()
     }
